@@ -264,8 +264,23 @@ pub fn expected_schema(docs: &[&DocEntry]) -> SNode {
     infer(&roots)
 }
 
+/// A call that fails half-way, made on the same thread just before a history starts: the first
+/// document with its last end tag replaced by `</>` (everything before it is parsed, then the
+/// reader reports the mismatch). The library keeps no state between calls, so this changes nothing;
+/// a variant that keeps per-thread scratch state and only tidies it on the success path would start
+/// the history from a state no fresh process has ("start from non-initial states too").
+pub fn aborted_call_before(docs: &[&DocEntry]) {
+    if let Some(d) = docs.first() {
+        if let Some(i) = d.xml.rfind("</") {
+            let broken = format!("{}</>", &d.xml[..i]);
+            let _ = subject::guarded(|| subject::parse(broken.as_bytes()).map(|_| ()));
+        }
+    }
+}
+
 /// run parse + extends on the real code
 pub fn run_history(docs: &[&DocEntry]) -> Result<Element<String>, String> {
+    aborted_call_before(docs);
     let xmls: Vec<&str> = docs.iter().map(|d| d.xml.as_str()).collect();
     match subject::guarded(|| subject::parse_all(&xmls)) {
         Ok(Ok(e)) => Ok(e),
@@ -277,6 +292,7 @@ pub fn run_history(docs: &[&DocEntry]) -> Result<Element<String>, String> {
 /// as `run_history`, but the intermediate tree is rendered after every step (the result is
 /// discarded): a rendering must not leave anything behind that a later rendering depends on
 pub fn run_history_rendering(docs: &[&DocEntry]) -> Result<Element<String>, String> {
+    aborted_call_before(docs);
     let run = || -> Result<Element<String>, xml_schema_generator::ParserError> {
         let mut el = subject::parse(docs[0].xml.as_bytes())?;
         for d in &docs[1..] {
